@@ -228,6 +228,15 @@ def bcb_field_mutants(data, rng):
     emit('IV', lambda w: edit_msg(w, lambda m: m[1].update({5: flip(m[1][5])})))
     emit('key id', lambda w: edit_msg(w, lambda m: m[1].update({4: b'zz'}) if 4 in m[1] else m[3][0][1].update({4: b'zz'})))
     emit('wrapped content key', lambda w: edit_msg(w, lambda m: m[3][0].__setitem__(2, flip(m[3][0][2]))))
+    def edit_asb(w, func):
+        blk = bcb(w)
+        asb = cb.parse_asb(blk['data'])
+        func(asb)
+        blk['data'] = cb.encode_asb(asb)
+
+    # the result entries are what is checked: with one taken away (or all of them) a target is left without any check
+    emit('last result entry of the confidentiality block removed', lambda w: edit_asb(w, lambda asb: asb.update(results=asb['results'][:-1])))
+    emit('every result entry of the confidentiality block removed', lambda w: edit_asb(w, lambda asb: asb.update(results=[])))
     emit('content algorithm in the protected header', lambda w: edit_msg(w, lambda m: m.__setitem__(0, cw.enc({1: 1 if cw.parse_all(m[0]).to_python().get(1) == 3 else 3}))))
     return out
 
